@@ -792,12 +792,8 @@ Definition run_undo (w : world) (n : Z) (hard : bool) : world * exitc :=
 
 Definition run_redo (w : world) (n : N) (hard : bool) : world * exitc :=
   if n =? 0 then (w, X1)
-  else if usize_max <? n then (w, X1)
-  else
-    (* -(redo_steps as isize): wraps for n > isize::MAX *)
-    let as_isize : Z := if n <=? isize_max then Z.of_N n else (Z.of_N n - 18446744073709551616)%Z in
-    let steps : Z := if (as_isize =? isize_min_z)%Z then isize_min_z else Z.opp as_isize in
-    run_undo_like w steps hard (MRedo (Z.of_N n)).
+  else if isize_max <? n then (w, X1)                 (* value parser: must fit in isize *)
+  else run_undo_like w (Z.opp (Z.of_N n)) hard (MRedo (Z.of_N n)).
 
 (* the k-th ancestor of the state ref along first parents (simplified log) corresponds to
    `refs/stacks/<b>~k`; its tree is the k-th previous state *)
